@@ -148,6 +148,39 @@ def line_cases(rng, w):
     return out
 
 
+# a function definition is a function definition: storage class, return type, what sits between the
+# header and the opening brace (`@` is the name)
+FUNC_SHAPES = [
+    ("plain", "int\t@(void)\n{\n\treturn (0);\n}\n"),
+    ("static", "static int\t@(void)\n{\n\treturn (0);\n}\n"),
+    ("pointer", "char\t*@(void)\n{\n\treturn (0);\n}\n"),
+    ("one-comment-before-brace", "int\t@(void)\n/* c */\n{\n\treturn (0);\n}\n"),
+    ("two-comments-before-brace", "int\t@(void)\n// c1\n// c2\n{\n\treturn (0);\n}\n"),
+    ("directive-before-brace", "int\t@(void)\n#define X@ 1\n{\n\treturn (0);\n}\n"),
+    ("brace-on-header-line", "int\t@(void) {\n\treturn (0);\n}\n"),
+    ("parameters-on-two-lines", "int\t@(int a,\n\t\tint b)\n{\n\treturn (a + b);\n}\n"),
+    ("struct-return", "struct s_x\t*@(void)\n{\n\treturn (0);\n}\n"),
+    ("empty-line-before-brace", "int\t@(void)\n\n{\n\treturn (0);\n}\n"),
+    ("long-type", "unsigned long long int\t@(void)\n{\n\treturn (0);\n}\n"),
+    ("attribute", "int\t@(void) __attribute__((unused))\n{\n\treturn (0);\n}\n"),
+    ("returns-function-pointer", "int\t(*@(void))(int)\n{\n\treturn (0);\n}\n"),
+]
+
+# a line of a function body is a line, whatever it holds
+LINE_KINDS = [
+    ("statement", ["\tp0 = 1;\n"]),
+    ("line-comment", ["\t// c\n"]),
+    ("block-comment-on-two-lines", ["\t/* c\n", "\t*/\n"]),
+    ("empty", ["\n"]),
+    ("directive", ["#define X 1\n"]),
+    ("statement-on-two-lines", ["\tp0 = 1 +\n", "\t\t2;\n"]),
+    ("inner-block", ["\tif (p0)\n", "\t{\n", "\t\tp0 = 2;\n", "\t}\n"]),
+    ("conditional-section", ["#ifdef X\n", "\tp0 = 3;\n", "#endif\n"]),
+    ("spliced-statement", ["\tp0 = 1 + \\\n", "\t\t2;\n"]),
+    ("string-spliced", ["\tp0 = sizeof(\"a\\\n", "b\");\n"]),
+]
+
+
 def func(body_lines, name="f", nparams=1, nvars=0):
     params = ", ".join(f"int p{i}" for i in range(nparams)) if nparams else "void"
     decls = "".join(f"\tint\tv{i};\n" for i in range(nvars)) + ("\n" if nvars else "")
@@ -180,6 +213,8 @@ def run(res, tier, br, model_ok=True, search=False):
             sig = f"limit:{code}:{'missing' if expected else 'spurious'}:{kind}"
             if kind == "code-last-line-no-newline" and expected and not got:
                 sig = "diag:LINE_TOO_LONG@last-line-without-newline"
+            if kind in ("lines-kind-spliced-statement", "lines-kind-string-spliced") and expected and not got:
+                sig = "diag:TOO_MANY_LINES@line-splice-in-body"
             res.report(sig, f"{kind}: measure {n} (limit {L}): {code} is {'missing' if expected else 'spurious'} on line {line}; diagnostics {diags[:6]}", rp)
 
     # 80 columns
@@ -213,6 +248,25 @@ def run(res, tier, br, model_ok=True, search=False):
         for k in range(n):
             line = 1 + k * 6
             check("m.c", src, "TOO_MANY_FUNCS", line, k + 1 > 5, "funcs", k + 1, 5) if (k in (4, 5, n - 1)) else None
+    # 5 functions, whatever the shape of the definitions: every shape at the 1st / 4th / 6th place among plain ones
+    shapes = FUNC_SHAPES
+    for shname, sh in shapes:
+        for total in (5, 6):
+            for place in ((0, 3, total - 1) if big else (rng.choice((0, 3)), total - 1)):
+                parts = [(sh if i == place else FUNC_SHAPES[0][1]).replace("@", f"f{i}") for i in range(total)]
+                src = "\n".join(parts)
+                line = 1 + sum(p.count("\n") + 1 for p in parts[:total - 1])
+                check("m.c", src, "TOO_MANY_FUNCS", line if total > 5 else None, total > 5, "funcs-shape-" + shname, total, 5)
+    # 25 lines, whatever the lines are made of
+    kinds = LINE_KINDS
+    for kname, ls in kinds:
+        for total in (25, 26):
+            n_other = total - len(ls) - 1
+            for place in ((0, n_other // 2, n_other) if big else (rng.choice((0, n_other // 2, n_other)),)):
+                body = ["\tp0 = %d;\n" % i for i in range(n_other)]
+                body[place:place] = ls
+                src = "int\tf(int p0)\n{\n" + "".join(body) + "\treturn (p0);\n}\n"
+                check("f.c", src, "TOO_MANY_LINES", src.count("\n"), total > 25, "lines-kind-" + kname, total, 25)
     # 4 parameters (plain, pointers, function pointer)
     for n in range(1, 11):
         ps = ", ".join(f"int a{i}" for i in range(n))
@@ -260,6 +314,10 @@ def reproduce(res, k):
     if k.get("input") is None:
         return
     outcome, diags, calls = observe("l.c", k["input"])
+    if "TOO_MANY_LINES" in k["signature"]:
+        if not any(c == "TOO_MANY_LINES" for c, l in diags):
+            res.report(k["signature"], "recorded input of a listed finding", {"kind": "limit", "src": k["input"]})
+        return
     if not any(c == "LINE_TOO_LONG" and l == 2 for c, l in diags):
         res.report(k["signature"], "recorded input of a listed finding", {"kind": "limit", "src": k["input"]})
 
